@@ -523,9 +523,117 @@ fn fam_far(ctx: &CaseCtx, cov: &mut Cov) -> CaseOut {
     out.sample = n.map(|n| sample_of(&pc, n));
     out
 }
+/// Streams CONSTRUCTED so that the range register sits exactly at the threshold of the
+/// normalisation test (2^24 - 1, 2^24, 2^24 + 1) right after a direct-bit halving - about
+/// 5e-8 per match in random streams. A search over (state, length, slot) on the
+/// reference encoder finds a match whose header leaves the right range; its direct bits
+/// are then all ones, so a byte fetched one bit late or early changes the distance.
+fn fam_norm_boundary(ctx: &CaseCtx, cov: &mut Cov) -> CaseOut {
+    use crate::refmodel::lzma::{Encoder, Model};
+    let mut out = CaseOut::default();
+    let mut rng = ctx.rng();
+    let props = if rng.chance(1, 2) { Props::new(0, 0, rng.below(5) as u32) } else { crate::gen::l2gen::random_props_l2(&mut rng) };
+    let mut model = Model::new(props);
+    let mut hist: Vec<u8> = Vec::new();
+    let mut enc = Encoder::new(&mut model, &mut hist);
+    let mut prog: Vec<Sym> = Vec::new();
+    let push = |enc: &mut Encoder, prog: &mut Vec<Sym>, s: Sym| {
+        let _ = enc.push(&s);
+        prog.push(s);
+    };
+    for _ in 0..rng.range(40, 200) {
+        push(&mut enc, &mut prog, Sym::Lit(rng.byte()));
+    }
+    let want_hist = 1usize << rng.range(9, 17);
+    while enc.hist.len() < want_hist {
+        let n = enc.hist.len() as u64;
+        push(&mut enc, &mut prog, Sym::Match { dist: rng.range(1, n) as u32, len: 273 });
+    }
+    let max_states = ctx.tier.pick(40_000, 400_000);
+    let mut found: Option<(u32, u32, u32, u32)> = None; // (len, slot, j, value class)
+    let mut states = 0u64;
+    'search: while states < max_states {
+        states += 1;
+        let n = enc.hist.len() as u64;
+        // largest slot whose whole distance range fits into the history
+        let log = 63 - n.leading_zeros() as u64;
+        let max_slot = ((2 * log).saturating_sub(1)).min(40) as u32;
+        for len in 2..=273u32 {
+            let r_len = enc.trial_match_len(len);
+            // slot probabilities depend on min(len - 2, 3) only, the range on the length
+            for slot in 14..=max_slot {
+                let mut r = enc.trial_slot(r_len, len, slot);
+                let nd = (slot >> 1) - 5;
+                for j in 0..nd {
+                    r >>= 1;
+                    let class = match r {
+                        0x00FF_FFFF => 0,
+                        0x0100_0000 => 1,
+                        0x0100_0001 => 2,
+                        _ => 3,
+                    };
+                    if class < 3 {
+                        found = Some((len, slot, j, class));
+                        break 'search;
+                    }
+                    if r < 0x0100_0000 {
+                        r <<= 8;
+                    }
+                }
+            }
+        }
+        let s = match rng.below(10) {
+            0..=6 => Sym::Lit(rng.byte()),
+            7 | 8 => Sym::Match { dist: rng.range(1, n) as u32, len: rng.range(2, 12) as u32 },
+            _ => Sym::Rep { idx: rng.below(4) as u8, len: rng.range(2, 12) as u32 },
+        };
+        // reps may point beyond the history right after the start: only push what is valid
+        let valid = match s {
+            Sym::Rep { idx, .. } => (enc.model.reps[idx as usize] as u64) < n,
+            _ => true,
+        };
+        if valid {
+            push(&mut enc, &mut prog, s);
+        }
+    }
+    cov.name("norm_boundary.search_states", states);
+    let (len, slot, _j, class) = match found {
+        Some(f) => f,
+        None => {
+            cov.name("norm_boundary.search_gave_up", 1);
+            return out;
+        }
+    };
+    let footer = (slot >> 1) - 1;
+    let base = (2 | (slot & 1)) << footer;
+    let reduced = (((1u32 << (footer - 4)) - 1) << 4) | rng.below(16) as u32;
+    let before = enc.rc.boundary;
+    push(&mut enc, &mut prog, Sym::Match { dist: base + reduced + 1, len });
+    let after = enc.rc.boundary;
+    if after[3 + class as usize] == before[3 + class as usize] {
+        out.harness_error("norm_boundary: the constructed match did not reach the predicted range");
+        return out;
+    }
+    cov.inc("norm_boundary_after_direct_bit", class);
+    for _ in 0..rng.range(2, 12) {
+        push(&mut enc, &mut prog, Sym::Lit(rng.byte()));
+    }
+    for (i, name) in ["model bit: 2^24-1", "model bit: 2^24", "model bit: 2^24+1"].iter().enumerate() {
+        cov.name(&format!("norm_boundary.also_seen_after_{}", name), enc.rc.boundary[i]);
+    }
+    drop(enc);
+    let term = *rng.pick(&[Term::Marker, Term::HeaderSize, Term::ProvidedNoHeaderField]);
+    let pc = PositiveCase { props, prog: &prog, term, dict: 1 << 20, reader: ReaderKind::Slice, max_dist: 1 << 20 };
+    let n = check_positive(&pc, "norm_boundary", &mut out, cov, ctx, true);
+    out.sample = n.map(|n| sample_of(&pc, n));
+    out
+}
 
 fn floors(tier: Tier, cov: &Cov) -> Vec<String> {
     let mut miss = Vec::new();
+    if cov.group_nonzero("norm_boundary_after_direct_bit") < 3 {
+        miss.push("range register not seen at all three values around the normalisation threshold after a direct bit".into());
+    }
     let cells = (0..12 * 8)
         .filter(|i| i % 8 != 7 && cov.get("cell", *i as u32) > 0)
         .count();
@@ -581,7 +689,7 @@ pub fn monitor(tier: Tier) -> Monitor {
     Monitor {
         id: "C01",
         level: "exploration",
-        rule: "cases = symbol programs (enumerated corner programs for all 84 state x kind cells; one steered program per lc/lp/pb setting; seeded random programs; wrap programs with output >> window; liblzma-encoded streams; far-distance programs) encoded by the independent reference encoder and decoded by lzma-rs (one-shot with 5 option shapes, raw decoder); non-trivial = the program contains at least one copy symbol and lzma-rs decoded >= 1 symbol (hook); distinct = by hash of (file bytes, termination style, declared dict)",
+        rule: "cases = symbol programs (enumerated corner programs for all 84 state x kind cells; programs CONSTRUCTED by a search on the reference encoder so that the range register is exactly 2^24 - 1 / 2^24 / 2^24 + 1 right after a direct-bit halving - the threshold of the normalisation test - with all-ones direct bits; one steered program per lc/lp/pb setting; seeded random programs; wrap programs with output >> window; liblzma-encoded streams; far-distance programs) encoded by the independent reference encoder and decoded by lzma-rs (one-shot with 5 option shapes, raw decoder); non-trivial = the program contains at least one copy symbol and lzma-rs decoded >= 1 symbol (hook); distinct = by hash of (file bytes, termination style, declared dict)",
         assumptions: vec![
             "ground truth is interpret(program): plain copying in an unbounded Vec".into(),
             "the reference encoder is cross-validated against system liblzma 5.4.x at the start of every run (self-check) and per case when lc+lp<=4".into(),
@@ -594,6 +702,7 @@ pub fn monitor(tier: Tier) -> Monitor {
             Family { name: "wrap", count: tier.pick(3000, 60_000), priority: false, enumerated: false, run: fam_wrap },
             Family { name: "random", count: tier.pick(30_000, 1_500_000), priority: false, enumerated: false, run: fam_random },
             Family { name: "liblzma", count: tier.pick(1500, 40_000), priority: false, enumerated: false, run: fam_liblzma },
+            Family { name: "norm_boundary", count: tier.pick(24, 600), priority: false, enumerated: false, run: fam_norm_boundary },
             Family { name: "far", count: tier.pick(3, 10), priority: false, enumerated: false, run: fam_far },
         ],
         label: std_label_c01,
@@ -605,6 +714,8 @@ pub fn monitor(tier: Tier) -> Monitor {
 fn std_label_c01(group: &str, i: u32) -> String {
     if group == "term" {
         format!("{:?}", TERMS[i as usize])
+    } else if group == "norm_boundary_after_direct_bit" {
+        ["range = 2^24 - 1", "range = 2^24", "range = 2^24 + 1"][i as usize].to_string()
     } else {
         std_label(group, i)
     }
